@@ -278,3 +278,99 @@ PP = Unit('C11', 'taurex.data.profiles.pressure.pressureprofile:SimplePressurePr
           inline=['nLevels', 'nLayers'], frame_attrs=[('self', 'pressure_profile_levels'), ('self', 'pressure_profile')],
           short='SimplePressureProfile.compute_pressure_profile', safety=('index',),
           doc='np.logspace model assumed; sqrt/pow10/log10 uninterpreted with ground axioms')
+
+
+# ------------------------------------------------------------------ generate_profile_dict / generate_profiles: what is stored IS what the model holds
+_PROFILE_KEYS = [('temp_profile', 'temperatureProfile'), ('active_mix_profile', 'chemistry.activeGasMixProfile'),
+                 ('inactive_mix_profile', 'chemistry.inactiveGasMixProfile'), ('density_profile', 'densityProfile'),
+                 ('scaleheight_profile', 'scaleheight_profile'), ('altitude_profile', 'altitudeProfile'),
+                 ('gravity_profile', 'gravity_profile'), ('pressure_profile', 'pressureProfile')]
+
+
+def _gp_params(c):
+    n, A, I = c.int('n'), c.int('A'), c.int('I')
+    cond = c.choice('condensates')
+    chem = ObjSpec('Chemistry', activeGasMixProfile=c.array('active', (A, n)), inactiveGasMixProfile=c.array('inactive', (I, n)),
+                   hasCondensates=cond, condensateMixProfile=c.array('cond', (1, n)), muProfile=c.array('mu', (n,)))
+    return dict(model=ObjSpec('SimpleForwardModel', temperatureProfile=c.array('T', (n,)), chemistry=chem, densityProfile=c.array('rho', (n,)),
+                              scaleheight_profile=c.array('H', (n,)), altitudeProfile=c.array('z', (n,)), gravity_profile=c.array('g', (n,)),
+                              pressureProfile=c.array('P', (n,))))
+
+
+def _gp_lookup(v, path):
+    o = v
+    for part in path.split('.'):
+        o = getattr(o, part) if not isinstance(o, dict) else o[part]
+    return o
+
+
+def _gp_post(extra_mu):
+    def post(c, v0, v1, r):
+        fx = c.fixed if c.mode != 'conc' else c.values
+        m = v0.model if not extra_mu else v0.self
+        keys = list(_PROFILE_KEYS) + ([('condensate_profile', 'chemistry.condensateMixProfile')] if fx['condensates'] else []) + \
+            ([('mu_profile', 'chemistry.muProfile')] if extra_mu else [])
+        d = {'keys': isinstance(r, dict) and list(r.keys()) == [k for k, _ in keys]}
+        if not d['keys']:
+            return d
+        import numpy as np
+        for k, path in keys:
+            want = _gp_lookup(m, path)
+            if c.mode == 'conc':
+                d['%s_is_the_model_profile' % k] = bool(np.array_equal(np.asarray(r[k]), np.asarray(want)))
+            else:
+                d['%s_is_the_model_profile' % k] = c.ArrEq(r[k], want) if hasattr(c, 'ArrEq') else _arr_same(c, r[k], want)
+        return d
+    return post
+
+
+def _arr_same(c, a, b):
+    sa, sb = c.Shape(a), c.Shape(b)
+    if len(sa) != len(sb):
+        return False
+    if len(sa) == 1:
+        return c.And(sa[0] == sb[0], c.Forall(0, sa[0], lambda i: a[i] == b[i]))
+    return c.And(sa[0] == sb[0], sa[1] == sb[1], c.Forall2((0, sa[0]), (0, sa[1]), lambda i, j: a[i, j] == b[i, j]))
+
+
+def _gp_native(method):
+    def native(c, p):
+        import numpy as np
+        from types import SimpleNamespace as NS
+        from taurex.util.output import generate_profile_dict
+        from taurex.model.simplemodel import SimpleForwardModel
+        s = p['model'] if not method else p['self']
+        ch = s['chemistry']
+        chem = NS(**{k: (np.array(v, dtype=float) if isinstance(v, (list, np.ndarray)) else v) for k, v in ch.items() if k != '__obj__'})
+        kw = {k: np.array(v, dtype=float) for k, v in s.items() if k not in ('chemistry', '__obj__')}
+        if not method:
+            return generate_profile_dict(NS(chemistry=chem, **kw)), p
+
+        class _M(SimpleForwardModel):
+            temperatureProfile = property(lambda self: kw['temperatureProfile'])
+            densityProfile = property(lambda self: kw['densityProfile'])
+            altitudeProfile = property(lambda self: kw['altitudeProfile'])
+            pressureProfile = property(lambda self: kw['pressureProfile'])
+            chemistry = property(lambda self: chem)
+        m = _M.__new__(_M)
+        m.scaleheight_profile, m.gravity_profile = kw['scaleheight_profile'], kw['gravity_profile']
+        return m.generate_profiles(), p
+    return native
+
+
+def _gp_gen(rng):
+    n, A, I = rng.randint(1, 5), rng.randint(0, 3), rng.randint(0, 3)
+    vec = lambda: [rng.uniform(0, 9) for _ in range(n)]
+    return dict(n=n, A=A, I=I, condensates=rng.random() < 0.4, active=[vec() for _ in range(A)], inactive=[vec() for _ in range(I)], cond=[vec()],
+                mu=vec(), T=vec(), rho=vec(), H=vec(), z=vec(), g=vec(), P=vec())
+
+
+GPD = Unit(['C11', 'C16'], 'taurex.util.output:generate_profile_dict', _gp_params, post=_gp_post(False), native=_gp_native(False), gen=_gp_gen,
+           cases=[{'condensates': False}, {'condensates': True}], bounds=[dict(n=2, A=1, I=1)], short='generate_profile_dict',
+           doc='the stored profile dictionary: exactly the documented keys, each holding the profile the model currently exposes under '
+               'the matching attribute (condensates only when the chemistry has them)')
+
+GPM = Unit(['C11', 'C16', 'C09'], SFM + 'generate_profiles', lambda c: dict(self=_gp_params(c)['model']), post=_gp_post(True), native=_gp_native(True),
+           gen=_gp_gen, cases=[{'condensates': False}, {'condensates': True}], bounds=[dict(n=2, A=1, I=1)], short='SimpleForwardModel.generate_profiles',
+           inline=['generate_profile_dict'],
+           doc='generate_profile_dict (its body executed in place) plus the mean molecular weight profile under mu_profile')
